@@ -30,6 +30,8 @@ def shards(tier, seed):
     for c in lib.pick_curves(tier, seed, extra=12):
         out.append(("keys_%s" % c.name, dict(kind="keys", cname=c.name, nrand=2 if q else 20, lzsearch=(c.order.bit_length() <= 256) or not q)))
     out.append(("toy", dict(kind="toy", ncurves=3 if q else 10)))
+    out.append(("child_hashseed_NIST192p", dict(kind="keys", cname="NIST192p", nrand=1, lzsearch=False, _pyopt="opt+hashseed")))
+    out.append(("child_hashseed_SECP160r1", dict(kind="keys", cname="SECP160r1", nrand=1, lzsearch=False, _pyopt="hashseed")))
     if not q:
         out.append(("openssl", dict(kind="openssl", count=12)))
     return out
